@@ -18,7 +18,7 @@ demo=$src/demo.sh
 ( cd $sv && go test -vet=off -count=1 ./... >/tmp/sv-tests.log 2>&1 ); rc_tests=$?
 ( cd $sv && timeout 600 bash $demo $sv >/tmp/sv-mut.log 2>&1 ); rc_mut=$?
 echo "demo on clean tree: rc=$rc_clean ; existing tests with change: rc=$rc_tests ; demo with change: rc=$rc_mut"
-if [ $rc_clean -ne 0 ] || [ $rc_tests -ne 0 ] || [ $rc_mut -eq 0 ]; then echo "NOT CONFIRMED"; tail -5 /tmp/sv-clean.log /tmp/sv-tests.log /tmp/sv-mut.log; exit 4; fi
+if [ $rc_clean -ne 0 ] || [ $rc_tests -ne 0 ] || [ $rc_mut -eq 0 ]; then echo "NOT CONFIRMED"; tail -n 5 /tmp/sv-clean.log; tail -n 5 /tmp/sv-tests.log; tail -n 5 /tmp/sv-mut.log; exit 4; fi
 cleanup; trap - EXIT
 verdict=$(/verif/tools/seedtest.sh $pid $src/patch.diff "$@")
 echo "$verdict"
